@@ -87,6 +87,12 @@ def draw_config(rng, wl, tier):
             cfg["data_variant"]["extra_mask"] = rng.random() < 0.5
             cfg["data_variant"]["history"] = None
             cfg["data_variant"]["history_clear"] = None
+    if (wl["kind"] == "drt" and wl["kwargs"].get("method") == "mrq-fit" and rng.random() < 0.35) or (wl["entry"] == "fit_circuit" and rng.random() < 0.1):
+        # F4 by ordinal: the k-th optimiser call of the run fails after earlier ones succeeded (m(RQ)fit fits twice).
+        # Whatever the analysis then returns is still judged by the identities; an error is a legitimate outcome.
+        cfg["fail"] = [f"#{rng.randint(2, 3)}"]
+        cfg["num_procs"] = 1
+        cfg["shared_memory"] = False
     cfg["in_child"] = rng.random() < 0.12
     # history fault: the same analysis on another data set, with the same worker count, earlier in the process
     cfg["decoy"] = rng.random() < 0.08
@@ -230,7 +236,12 @@ def _evaluate(wl, cfg, dec, ctx, after_decoy=False):
             add("identities", f"{wl['entry']}({opts}) serial reference -> {v}", result=cls, field=field)
         for c in ref.input_changes or []:
             add("input-untouched", f"{wl['entry']}({opts}) serial reference: {c}")
-    if dv.get("reseed") is not None:
+    if cfg.get("fail"):
+        # an injected optimiser failure: error or result are both legitimate, only the identities are judged
+        out.probes["fit_failure_injected"] = 1
+        if out.status == "ok":
+            out.probes["result_despite_failed_fit"] = 1
+    elif dv.get("reseed") is not None:
         out.probes["variant_other_data"] = 1
     elif ref.status != "skipped":
         d = outcome_diff(ref, out)
